@@ -204,7 +204,9 @@ Fixpoint process (tb : tabs) (s : list byte) (end_ : Z) (args : list fmtarg) (po
                      match count_of params with Some n => process tb s end_ args p a (out ++ rep n 12%N) f | None => OError end
                    else if N.eqb l 42%N then       (* ~* *)
                      match move_of colon at_ params a with
-                     | MPos a' => process tb s end_ args p a' out f
+                     | MPos a' => (* the new position must be in 0..len(args) (repo_fixes/C15-15) *)
+                                  if (a' <? 0)%Z || (Z.of_nat (length args) <? a')%Z then OError
+                                  else process tb s end_ args p a' out f
                      | MErr => OError
                      | MUnm => OUnmodelled end
                    else if N.eqb l 84%N || N.eqb l 116%N then   (* ~T ~t *)
